@@ -23,3 +23,44 @@ Theorem C20_clean_stray_safe : forall s n,
         log_has s n (match alookup n (cmps s) with Some c => c_hash c | None => [] end) = true)).
 Proof. exact clean_stray_safe. Qed.
 Print Assumptions C20_clean_stray_safe.
+
+(* ---- Prune (second clause): only directories that are empty and old enough go ---- *)
+From STS Require Import Model.Prune Proofs.PruneP.
+
+Theorem C20_prune_removes_only_old_dirs : forall t n,
+  In n t -> ~ In n (prune t) -> pn_dir n = true /\ pn_old n = true.
+Proof. exact prune_removes_only_old_dirs. Qed.
+Print Assumptions C20_prune_removes_only_old_dirs.
+
+Theorem C20_prune_keeps_files_and_young : forall t n,
+  In n t -> (pn_dir n = false \/ pn_old n = false) -> In n (prune t).
+Proof. exact prune_keeps_files_and_young. Qed.
+Print Assumptions C20_prune_keeps_files_and_young.
+
+(* nothing that stays lies directly inside a directory that went: a removed directory was empty *)
+Theorem C20_prune_leaves_no_orphans : forall t d c,
+  In d t -> ~ In d (prune t) -> In c t -> child_path (pn_path d) (pn_path c) = true -> ~ In c (prune t).
+Proof. exact prune_leaves_no_orphans. Qed.
+Print Assumptions C20_prune_leaves_no_orphans.
+
+(* exact characterisation, for every tree *)
+Theorem C20_prune_spec : forall t d, In d t ->
+  (~ In d (prune t) <->
+   pn_dir d = true /\ pn_old d = true /\
+   forall c, In c t -> child_path (pn_path d) (pn_path c) = true -> ~ In c (prune t)).
+Proof. exact prune_spec. Qed.
+Print Assumptions C20_prune_spec.
+
+(* the recursion bound of the model never decides the answer *)
+Theorem C20_prune_fuel_sufficient : forall t d k,
+  removable (prune_fuel t + k) t d = removable (prune_fuel t) t d.
+Proof. exact fuel_sufficient. Qed.
+Print Assumptions C20_prune_fuel_sufficient.
+
+(* non-vacuity: a young directory holding an old empty one keeps only itself; an old chain collapses *)
+Example C20_prune_example :
+  prune [mkpnode [[1]] true false; mkpnode [[1]; [2]] true true] = [mkpnode [[1]] true false] /\
+  prune [mkpnode [[1]] true true; mkpnode [[1]; [2]] true true; mkpnode [[3]] true true; mkpnode [[3]; [4]] false true]
+    = [mkpnode [[3]] true true; mkpnode [[3]; [4]] false true].
+Proof. vm_compute. split; reflexivity. Qed.
+Print Assumptions C20_prune_example.
